@@ -264,7 +264,7 @@ func c10Protocol(l *explore.Local, _ struct{}, c c10Case) *explore.Fail {
 func init() {
 	register("C10", "model_checking", func(c *Ctx) {
 		if c.R != nil {
-			c.R.Rule = "(a) every counter state s(64) x m(64) x h(32) x d(512) x carry(2) = 134,217,728, one real one-second step each, compared with the reference carry chain; (b) sub-second count preset to every value within 16 of the second boundary, 0-40 real Mapper cycles, all five registers observed through latch+read after every cycle, halted and running, plus an un-hooked run over 2 emulated seconds; (c) every sequence up to the depth bound over {latch 00/01, select 08-0C/RAM, write 10 values, enable/disable, 1 cycle, jump to 2 cycles before the next second, the host saving the cartridge RAM (DumpRAM)}, the full guest-visible clock observed after every event"
+			c.R.Rule = "(a) every counter state s(64) x m(64) x h(32) x d(512) x carry(2) = 134,217,728, one real one-second step each, compared with the reference carry chain; (b) sub-second count preset to every value within 16 of the second boundary, 0-40 real Mapper cycles, all five registers observed through latch+read after every cycle, halted and running, plus an un-hooked run over 2 emulated seconds; (c) every sequence up to the depth bound over {latch 00/01, select 08-0C/RAM, write 10 values, enable/disable, 1 cycle, jump to 2 cycles before the next second, the host saving the cartridge RAM (DumpRAM)}, the full guest-visible clock observed after every event; secondary evidence: every edge of the TLC state graph of tla/RTCLatch.tla (an independent restatement of the latch protocol around the minute carry) replayed on the real cartridge"
 			c.R.Assumptions = []string{"latch writes other than 00/01 are outside the alphabet (unspecified)", "out-of-range counter values wrap at their bit width without carry (Pan Docs)", "the 'jump' event places the sub-second count by hook; crossing the boundary is done by real ticks"}
 		}
 		explore.Product(c.R, "carry-chain", explore.PartOpt{Bound: "single step from every state", Domain: "all 134,217,728 counter states"},
@@ -321,5 +321,6 @@ func init() {
 					}
 				}
 			}, func() struct{} { return struct{}{} }, c10Protocol)
+		c10TLCPart(c)
 	})
 }
